@@ -1,6 +1,7 @@
 package main
 
 import (
+	"crypto/sha1"
 	"fmt"
 	"go/constant"
 	"go/types"
@@ -260,12 +261,22 @@ func c18Exact128(v constant.Value) bool {
 	return e1 && e2
 }
 
+// c18StrRepr: canonical ASCII rendering of a string constant; very long strings are replaced by a digest
+// (on the declaration side and on the observation side alike).
+func c18StrRepr(x string) string {
+	if len(x) > 4096 {
+		h := sha1.Sum([]byte(x))
+		return fmt.Sprintf("sha1:%x:%d", h, len(x))
+	}
+	return strconv.QuoteToASCII(x)
+}
+
 func c18CVal(v constant.Value) string {
 	switch v.Kind() {
 	case constant.Bool:
 		return "(CBool " + coqBool(constant.BoolVal(v)) + ")"
 	case constant.String:
-		return "(CString " + coqStr(strconv.QuoteToASCII(constant.StringVal(v))) + ")"
+		return "(CString " + coqStr(c18StrRepr(constant.StringVal(v))) + ")"
 	case constant.Int:
 		z, _ := new(big.Int).SetString(v.ExactString(), 10)
 		return "(CInt " + c18Z(z) + ")"
@@ -299,7 +310,9 @@ func (d c18Decl) coq() string {
 	var o string
 	switch d.Kind {
 	case "const":
-		if d.Untyped {
+		if d.Untyped && !d.Exported {
+			o = "OConst true (CBool false)" // unexported: skipped by genContent before the value is read
+		} else if d.Untyped {
 			o = "OConst true " + c18CVal(d.Val)
 		} else {
 			o = "OConst false (CBool false)" // the value of a typed constant is not read by genContent
